@@ -125,7 +125,11 @@ func ExtractInfo(c Cursor, obj Object, _ bool) (*Info, error) {
 
 	// trapped field
 	if trappedObj := dict["Trapped"]; trappedObj != nil {
-		if name, err := c.Name(trappedObj); err == nil {
+		name, err := Optional(c.Name(trappedObj))
+		if err != nil {
+			return nil, err
+		}
+		{
 			switch name {
 			case "True":
 				info.Trapped.Set(true)
@@ -147,7 +151,11 @@ func ExtractInfo(c Cursor, obj Object, _ bool) (*Info, error) {
 		if standardKeys[key] {
 			continue
 		}
-		if ts, err := c.TextString(val); err == nil && len(ts) > 0 {
+		ts, err := Optional(c.TextString(val))
+		if err != nil {
+			return nil, err
+		}
+		if len(ts) > 0 {
 			if info.Custom == nil {
 				info.Custom = make(map[string]string)
 			}
